@@ -6,6 +6,14 @@ set -e
 cd "$(dirname "$0")"
 export CARGO_NET_OFFLINE=true
 python3 tools/translate.py || echo "translate: some tables untranslatable (checks will report)"
+python3 - <<'PY'
+import sys
+sys.path.insert(0, "tools")
+import vlib
+ok, out, b = vlib.build_harness("default")
+print("harness default:", "ok" if ok else out[-2000:])
+if ok: print("registry dump:", vlib.dump_registry(b))
+PY
 cd coq
 coq_makefile -f _CoqProject -o Makefile
 timeout 7200 make -j16 || echo "coq: some files do not compile on this tree (checks will report)"
